@@ -89,7 +89,7 @@ static int cont(utf8_decode_t *u) {
 /*
     Initialize the UTF-8 decoder. The decoder is not reentrant,
 */
-void utf8_decode_init(const char p[], int length, utf8_decode_t *u) {
+void utf8_decode_init(const char p[], size_t length, utf8_decode_t *u) {
     u->the_index = 0;
     u->the_input = p;
     u->the_length = length;
@@ -101,7 +101,7 @@ void utf8_decode_init(const char p[], int length, utf8_decode_t *u) {
 /*
     Get the current byte offset. This is generally used in error reporting.
 */
-int utf8_decode_at_byte(utf8_decode_t *u) {
+size_t utf8_decode_at_byte(utf8_decode_t *u) {
     return u->the_byte;
 }
 
@@ -110,7 +110,7 @@ int utf8_decode_at_byte(utf8_decode_t *u) {
     Get the current character offset. This is generally used in error reporting.
     The character offset matches the byte offset if the text is strictly ASCII.
 */
-int utf8_decode_at_character(utf8_decode_t *u) {
+size_t utf8_decode_at_character(utf8_decode_t *u) {
     return (u->the_char > 0)
         ? u->the_char - 1
         : 0;
